@@ -45,6 +45,8 @@ FIXED_PROGRAMS = [
     'OPENQASM 3.0;\ninclude "stdgates.inc";\nqubit[7] q;\nbit[2] c;\ndef first(qubit[2] p) { h p[0]; }\ndef pick(qubit[3] p, qubit a) { cx p[0], a; barrier p[1]; }\nfirst(q[{3, 1}]);\npick(q[{6, 2, 0}], q[4]);\nc[0] = measure q[3];\n',
     # bit registers declared with computed initial values (they count as registers on the validate path as on the unroll path)
     'OPENQASM 3.0;\ninclude "stdgates.inc";\nqubit[3] q;\nint[8] n = 1;\nconst int[8] k = 2;\nbit[4] a = n + 1;\nbit[2] f = k;\nbit e = !false;\nbit[3] c;\nh q[0];\na[1] = measure q[0];\nif (a[1] == 1) {\n  x q[1];\n}\nc[2] = measure q[1];\nbarrier q[2];\n',
+    # a loop whose first iterations emit nothing (a qubit is touched in the last iteration only, directly and through a subroutine)
+    'OPENQASM 3.0;\ninclude "stdgates.inc";\nqubit[4] q;\nbit[1] c;\ndef late(qubit a, int[8] k) { if (k == 2) { x a; } }\nh q[0];\nfor int i in [0:2] {\n  if (i == 2) {\n    x q[1];\n  }\n}\nfor int j in [0:2] {\n  late(q[2], j);\n}\nc[0] = measure q[0];\n',
     # OpenQASM 2 modules go through the same machinery (their own accept / printer)
     'OPENQASM 2.0;\ninclude "qelib1.inc";\nqreg q[4];\nqreg r[2];\ncreg c[4];\nh q[0];\ncx q[0],q[2];\nbarrier q[0],q[2];\nmeasure q[2] -> c[2];\nu3(0.1,0.2,0.3) r[1];\nif(c==1) x q[0];\nbarrier r;\n',
     'OPENQASM 2.0;\ninclude "qelib1.inc";\nqreg q[3];\ncreg c[3];\ngate g2(t) a, b { rx(t) a; cx a, b; }\ng2(0.5) q[0],q[1];\nbarrier q;\nh q[1];\nmeasure q -> c;\n',
@@ -135,7 +137,73 @@ def shrink_history(src, hist, nobs, fails):
     return body + obs
 
 
-def run(prop, tier, seed, make_cases, theorem_targets=(), note="", extra_cov=None, known_replays=True):
+FAILING_BASE = [
+    'OPENQASM 3.0;\ninclude "stdgates.inc";\nqubit[4] q;\nbit[2] c;\ngate cg(a) x, y { rx(a) x; cx x, y; }\ncg(0.5) q[0], q[1];\nbarrier q[0], q[1];\nh q[1];\nc[0] = measure q[0];\nbarrier q[1];\nc[1] = measure q[1];\n',
+    'OPENQASM 3.0;\ninclude "stdgates.inc";\nqubit[3] q;\nbit[1] c;\ngate g1 x { h x; }\ngate g2 x, y { g1 x; cx x, y; }\ng2 q[0], q[1];\nbarrier q;\ng1 q[1];\nc[0] = measure q[1];\nif (c[0] == 1) {\n  g1 q[0];\n  barrier q[0];\n}\n',
+]
+
+
+def _observe(m):
+    import pyqasm
+    out = []
+    for name in ("dumps", "num_qubits", "num_clbits", "has_measurements", "has_barriers", "depth"):
+        try:
+            v = pyqasm.dumps(m) if name == "dumps" else getattr(m, name) if name.startswith("num_") else getattr(m, name)()
+            out.append((name, "ok", v))
+        except Exception as e:
+            out.append((name, "error", type(e).__name__))
+    return out
+
+
+def failed_call_oracle(chk, transforms):
+    """a call that is REJECTED in the middle of a history leaves the module as the earlier calls made it: gates kept
+    external, a transformation (the definitions are gone, so a plain unroll() is rejected), the rejected unroll(), then
+    unroll(external_gates) again -- every observable must equal that of the same history without the rejected call"""
+    import logging
+    logging.disable(logging.CRITICAL)
+    import pyqasm
+    n = bad = 0
+    for src in FAILING_BASE:
+        ext = ["cg"] if "cg(" in src else ["g1", "g2"]
+        for t in transforms:
+            for inpl in (True,):
+                def history(with_failure):
+                    m = pyqasm.loads(src)
+                    m.unroll(external_gates=ext)
+                    getattr(m, t)(in_place=True)
+                    failed = None
+                    if with_failure:
+                        try:
+                            m.unroll()
+                            failed = False
+                        except Exception as e:
+                            failed = type(e).__name__
+                    try:
+                        m.unroll(external_gates=ext)
+                        again = "ok"
+                    except Exception as e:
+                        again = type(e).__name__
+                    return failed, again, _observe(m)
+                try:
+                    f1, a1, o1 = history(True)
+                    f0, a0, o0 = history(False)
+                except Exception as e:
+                    continue
+                n += 1
+                if f1 is False:
+                    continue           # the plain unroll was accepted: nothing was rejected in this history
+                if (a1, o1) != (a0, o0) and bad < 3:
+                    bad += 1
+                    k = next((i for i, (x, y) in enumerate(zip(o1, o0)) if x != y), None)
+                    chk.violation("after_rejected_call_%d" % bad, {"kind": "history-ext", "source": src,
+                                  "calls": [["unroll", {"external_gates": ext}], [t, {"in_place": True}], ["unroll", {}], ["unroll", {"external_gates": ext}]],
+                                  "what": "after %s, a rejected unroll() (%s) changes what the module is: %s differs from the same history without the rejected call"
+                                          % (t, f1, o1[k][0] if k is not None else "the outcome of the next unroll"),
+                                  "with_rejected_call": str(o1[k])[:600] if k is not None else a1, "without": str(o0[k])[:600] if k is not None else a0})
+    return n
+
+
+def run(prop, tier, seed, make_cases, theorem_targets=(), note="", extra_cov=None, known_replays=True, failed_call_after=()):
     """make_cases(rnd, tier, progs_fn) -> list of dict(src, hist, nobs, family)"""
     chk = common.Check(prop, tier, seed)
     known = common.load_known(prop)
@@ -209,6 +277,7 @@ def run(prop, tier, seed, make_cases, theorem_targets=(), note="", extra_cov=Non
             if entry is not None:
                 payload["regressed_fix"] = entry["id"]
             chk.violation("%s_%d" % ("regressed" if entry is not None else "history", nviol), payload)
+    nfailed = failed_call_oracle(chk, failed_call_after) if failed_call_after else 0
     if not proof_ok and not chk.violations:
         chk.violation("proof_broken", {"kind": "proof", "broken": res.failed_target or res.translator_error or
                                        ("axioms %s" % bad_axioms if bad_axioms else "hygiene %s" % hyg),
@@ -231,6 +300,7 @@ def run(prop, tier, seed, make_cases, theorem_targets=(), note="", extra_cov=Non
         "calls": dict(ops_hist),
         "outcomes": dict(cnt),
         "distinct_programs": len(set(c["src"] for c in cases)),
+        "histories_with_a_rejected_call_after_the_transformation": nfailed,
         "traces_validated_against_impl": cnt.get("agree", 0),
         "samples": [{"family": c["family"], "source": c["src"], "calls": [modcorr.op_text(o) for o in c["hist"]]} for c in cases[:: max(1, len(cases) // 3)][:3]],
         "envelope": ["programs whose unrolled form has a qubit-restricted gphase or a conditional with an empty if-block are not used (they do not re-load: C03 known findings)",
@@ -252,6 +322,16 @@ def run(prop, tier, seed, make_cases, theorem_targets=(), note="", extra_cov=Non
 def replay_cmd(prop, path):
     r = json.load(open(path))
     chk = common.Check(prop, "quick", 0)
+    if r.get("kind") == "history-ext" and r.get("calls") and isinstance(r["calls"][1], list) and isinstance(r["calls"][1][1], dict):
+        # a rejected call after a transformation (failed_call_oracle): run that one history again
+        global FAILING_BASE
+        saved, FAILING_BASE = FAILING_BASE, [r["source"]]
+        try:
+            n = failed_call_oracle(chk, (r["calls"][1][0],))
+        finally:
+            FAILING_BASE = saved
+        print("histories run:", n, "violations:", len(chk.violations))
+        return chk.finish()
     if r.get("kind") == "history":
         common.build(["Module/ModuleSpec.vo"])
         hist = [tuple(o) for o in r["calls"]]
